@@ -10,7 +10,7 @@
 (* SolversObs.tla evaluates the property and the conformance of the plan on those observations.                    *)
 EXTENDS SolversDef
 CONSTANTS Topos, SlackKinds, SlackPos, PVs, XSs, TrafoKinds, Loads,      \* single-island classes: full product
-          PVsA, TrafoKindsA,                                              \* first island of a two-island class
+          PVsA, TrafoKindsA, LoadsA,                                      \* first island of a two-island class
           Topos2, SlackKinds2, SlackPos2, PV2s,                           \* second island: reduced family
           MaxIslands
 VARIABLES net,    \* [c: class, cva: calculate_voltage_angles, res: result tables of a previous run exist]
@@ -19,7 +19,7 @@ vars == <<net, step>>
 
 Island1 == {d \in [topo : Topos, slack : SlackKinds, spos : SlackPos, pv : PVs, xs : XSs, trafo : TrafoKinds, load : Loads] :
               ~(d.xs /\ d.pv)}                       \* the extra ext_grid and the PV gen would share template bus 2
-IslandA == [topo : Topos, slack : SlackKinds, spos : SlackPos, pv : PVsA, xs : {FALSE}, trafo : TrafoKindsA, load : Loads]
+IslandA == [topo : Topos, slack : SlackKinds, spos : SlackPos, pv : PVsA, xs : {FALSE}, trafo : TrafoKindsA, load : LoadsA]
 IslandB(d) == [topo : Topos2, slack : SlackKinds2, spos : SlackPos2, pv : PV2s, xs : {FALSE}, trafo : {"none"}, load : {d.load}]
 Classes == {<<d>> : d \in Island1}
            \cup (IF MaxIslands >= 2 THEN UNION {{<<d, e>> : e \in IslandB(d)} : d \in IslandA} ELSE {})
